@@ -108,7 +108,7 @@ def n_compartments(name):
 class Live:
     """A model instance set up on a real dynamics, with the views the harness needs."""
 
-    def __init__(self, name, nodes, edges, init, dynamics='stochastic'):
+    def __init__(self, name, nodes, edges, init, dynamics='stochastic', seed=1):
         import epydemic as E
         from epydemic.opinion_model import MultiCompartmentedEdgeLocus
         self.name = name
@@ -118,7 +118,7 @@ class Live:
         self.m = make_model(name)
         k = n_compartments(name)
         script = [(i + 0.5) / k for i in init]
-        self.oracle = install(Oracle(seed=1, script={'random': script}))
+        self.oracle = install(Oracle(seed=seed, script={'random': script}))
         cls = E.StochasticDynamics if dynamics == 'stochastic' else E.SynchronousDynamics
         self.d = cls(self.m, E.FixedNetwork(g))
         self.params = _params(name)
@@ -193,8 +193,8 @@ class Live:
              'lens': [len(l) for (_, l, _) in self.loci]}
         # per-element events: (index of the locus or None, elements if it is some other locus, pr, rate)
         try:
-            dist = self.m.perElementEventDistribution(0.0)
-            rates = self.m.perElementEventRateDistribution(0.0)
+            dist = self.d.perElementEventDistribution(0.0)
+            rates = self.d.eventRateDistribution(0.0)[:len(dist)]      # per-element events come first
             ev = []
             for (l, pr, _, _), (l2, rate, _, _) in zip(dist, rates):
                 ix = [i for i, (_, ll, _) in enumerate(self.loci) if ll is l]
@@ -202,7 +202,7 @@ class Live:
                            'elements': None if ix else [(list(x) if isinstance(x, tuple) else x) for x in l],
                            'pr': pr, 'rate': rate, 'same': l is l2})
             d['events'] = ev
-            d['events_exc'] = None if len(dist) == len(rates) else 'length mismatch'
+            d['events_exc'] = None if len(dist) == len(rates) == len(self.d.perElementEventRateDistribution(0.0)) else 'length mismatch'
         except Exception as e:   # observable: e.g. KeyError on a stale edge
             d['events'] = []
             d['events_exc'] = type(e).__name__ + ': ' + str(e)
@@ -458,7 +458,16 @@ class H(Harness):
         for i in range(n):
             model = models[i % len(models)] if rnd.random() < 0.8 else rnd.choice(['Opinion', 'SIR', 'synth_cc'])
             stream = rnd.choice(self.STREAMS)
-            if i % 7 == 3:
+            if i % 9 == 5:
+                # a whole simulated run of a shipped model under either dynamics
+                nn = rnd.randrange(3, 9)
+                nodes, edges = make_graph(rnd, nn, rnd.choice(self.KINDS))
+                m = SHIPPED[(i // 9) % len(SHIPPED)]
+                out.append({'model': m, 'nodes': nodes, 'edges': [list(e) for e in edges],
+                            'init': [rnd.randrange(n_compartments(m)) for _ in nodes], 'universe': nodes, 'ops': [], 'run': True,
+                            'seed': rnd.randrange(1 << 30), 'tmax': 15.0, 'max_calls': 60, 'stream': 'run',
+                            'dynamics': rnd.choice(['stochastic', 'synchronous'])})
+            elif i % 7 == 3:
                 # a pair of histories from the same set-up state that end in the same network state:
                 # the same calls in another order / with detours (state-function clause)
                 c = self._one(rnd, model if model in SHIPPED else 'Opinion', 'random', maxlen=8)
@@ -557,32 +566,58 @@ class H(Harness):
 
     # ---------------------------------------------------------------- execution
     def _run(self, case, ops):
-        lv = Live(case['model'], case['nodes'], [tuple(e) for e in case['edges']], case['init'], case.get('dynamics', 'stochastic'))
+        lv = Live(case['model'], case['nodes'], [tuple(e) for e in case['edges']], case['init'], case.get('dynamics', 'stochastic'),
+                  seed=case.get('seed', 1))
         U = case['universe']
         d0 = lv.dump(U)
         dumps = []
+        if case.get('run'):
+            # a real simulation: every changeCompartment call the event functions make is a call of the history
+            ops = []
+            orig = lv.m.changeCompartment
+
+            class Stop(Exception):
+                pass
+
+            def recording(n, c):
+                exc = None
+                try:
+                    orig(n, c)
+                except Exception as e:
+                    exc = type(e).__name__ + ': ' + str(e)[:80]
+                ops.append(['change', n, lv.comps.index(c)])
+                dumps.append(lv.dump(U, raised=exc))
+                if len(ops) >= case.get('max_calls', 60):
+                    raise Stop()
+            lv.m.changeCompartment = recording
+            lv.m.setMaximumTime(case.get('tmax', 6.0))
+            try:
+                lv.d.do(lv.params)
+            except Stop:
+                pass
+            return lv, d0, dumps, ops
         for op in ops:
             exc = lv.apply(op)
             dumps.append(lv.dump(U, raised=exc))
-        return lv, d0, dumps
+        return lv, d0, dumps, list(ops)
 
     def execute(self, case):
-        lv, d0, dumps = self._run(case, case['ops'])
-        obs = {'table': lv.table(), 'effects': lv.effects_table(), 'loci_names': [nm for (nm, _, _) in lv.loci],
+        lv, d0, dumps, ops = self._run(case, case['ops'])
+        obs = {'ops': ops, 'table': lv.table(), 'effects': lv.effects_table(), 'loci_names': [nm for (nm, _, _) in lv.loci],
                'other_loci': lv.other_loci, 'stray_keys': sorted(lv.stray_keys), 'compartments': lv.names,
                'setup': d0, 'after': dumps,
                'init_seen': [d0['attr'][case['universe'].index(n)] for n in case['nodes']]}
         if case.get('ops_b'):
-            lv2, d0b, dumps_b = self._run(case, case['ops_b'])
+            lv2, d0b, dumps_b, _ = self._run(case, case['ops_b'])
             obs['after_b'] = dumps_b
             obs['setup_b_same'] = (d0b == d0 and lv2.table() == obs['table'])
         valid = 0
         sh = Shadow(case['nodes'], [tuple(e) for e in case['edges']], case['init'])
-        for op in case['ops']:
+        for op in ops:
             if sh.pre(op):
                 valid += 1
             sh.apply(op)
-        obs['stats'] = {'calls': len(case['ops']), 'calls_pre_ok': valid, 'calls_raised': sum(1 for d in dumps if d['raised']),
+        obs['stats'] = {'calls': len(ops), 'calls_pre_ok': valid, 'calls_raised': sum(1 for d in dumps if d['raised']),
                         'stream_' + case.get('stream', '?'): 1, 'model_' + case['model']: 1}
         return obs
 
@@ -677,7 +712,7 @@ class H(Harness):
         v += self._check_dump(case, obs, obs['setup'], 'setUp')
         if v:
             return v
-        va, oka = self._walk(case, obs, case['ops'], obs['after'])
+        va, oka = self._walk(case, obs, obs['ops'], obs['after'])
         v += va
         if case.get('ops_b') and not v:
             vb, okb = self._walk(case, obs, case['ops_b'], obs['after_b'])
@@ -752,12 +787,12 @@ class H(Harness):
             L.lst(obs['table'], self._spec),
             L.lst(['(%s, %s)' % (L.z(c), L.lst(ix, L.nat)) for c, ix in obs['effects']]),
             L.lst(case['universe'], L.z), L.lst(case['nodes'], L.z), L.lst(case['edges'], L.zpair), L.lst(init, L.zpair),
-            L.lst(case['ops'], self._op), self._obs(obs['setup']), L.lst(obs['after'], self._obs),
+            L.lst(obs['ops'], self._op), self._obs(obs['setup']), L.lst(obs['after'], self._obs),
             L.lst(ops_b, self._op), L.lst(obs.get('after_b', []) if ops_b else [], self._obs))
 
     def nontrivial(self, case, obs):
         if obs['stats']['calls_pre_ok'] >= 3 and any(any(d['lens']) for d in [obs['setup']] + obs['after']):
-            return json.dumps([case['model'], case['nodes'], case['edges'], case['init'], case['ops'], case.get('ops_b')])
+            return json.dumps([case['model'], case['nodes'], case['edges'], case['init'], obs['ops'], case.get('ops_b')])
         return None
 
     def sample_view(self, case, obs):
